@@ -138,6 +138,8 @@ def match_known(mis, prop, known):
             continue
         if "build" in k and not re.fullmatch(k["build"], mis.get("b", "")):
             continue
+        if "got" in k and k["got"] != mis.get("got"):
+            continue
         if "outcome" in k:
             kind_of = "panic" if is_panic(mis.get("got")) else "value"
             if k["outcome"] != kind_of:
